@@ -9,7 +9,7 @@
 //	       first message of a fresh connection: one record per connection
 //
 // The peer frames messages itself ([len32][id][body]) and encodes bodies with the reflection encoder.
-// Usage: syncrec <out.ndjson> <seed> <count> <sync|intro|converge> [scripts.json]
+// Usage: syncrec <out.ndjson> <seed> <count> <sync|intro|converge|gossip> [scripts.json]
 package main
 
 import (
@@ -699,7 +699,7 @@ func runIntro(dir string, c *chain, count int) {
 
 func main() {
 	if len(os.Args) < 5 {
-		log.Fatal("usage: syncrec <out.ndjson> <seed> <count> <sync|intro|converge> [scripts.json]")
+		log.Fatal("usage: syncrec <out.ndjson> <seed> <count> <sync|intro|converge|gossip> [scripts.json]")
 	}
 	if os.Getenv("VERIF_LOG") == "" {
 		logging.Disable()
@@ -749,6 +749,11 @@ func main() {
 	case "intro":
 		c := makeChain(dir, 1)
 		runIntro(dir, c, count)
+	case "gossip":
+		c := makeChain(dir, 4)
+		for i := 0; i < count; i++ {
+			runGossip(dir, c, i, 25)
+		}
 	default:
 		log.Fatal("unknown mode")
 	}
